@@ -22,6 +22,8 @@ INITIALS = [  # (file content or None, writable)
     # the other AES key sizes, and sizes around them: only 32 bytes is a key file
     (bytes(range(1, 17)), True), (bytes(range(1, 25)), True), (bytes(range(1, 9)), True), (bytes(range(1, 65)), True), (b"\x07", True),
     (bytes(range(1, 49)), True),
+    # valid 32-byte keys with unusual content: used verbatim like any other
+    (bytes(32), True), (b"\xff" * 32, True), (b" " * 32, True), (b"\n" + bytes(range(2, 32)) + b"\n", True),
 ]
 METHODS = ["xor", "aes", "best", "bogus"]
 GM = {"xor": "MXor", "aes": "MAes", "best": "MBest", "bogus": "MBogus"}
@@ -36,12 +38,23 @@ def generate(rng, tier):
     maxlen = 3 if tier == "quick" else 5
     alphabet = [("enter", 0), ("exit", 0), ("enc", 0, "xor", b"\x00" * 40), ("enter", 1), ("exitx", 1),
                 ("enc", 1, "xor", b"abc")]
+    # leaving a NESTED context through an encryption error that the caller handles: the outer context keeps working
+    nested = []
+    for how in ("exit", "exitx", "exite"):
+        nested.append([("new",), ("enter", 0), ("enter", 0), ("enc", 0, "bogus", b"x"), (how, 0), ("enc", 0, "xor", b"abc"),
+                       ("dec", 0, "xor", b"abc"), ("exit", 0), ("enc", 0, "xor", b"abc"), ("enter", 0), ("enc", 0, "xor", b"abc"), (how, 0)])
+        nested.append([("new",), ("new",), ("enter", 0), ("enter", 1), ("enter", 0), (how, 0), ("enc", 0, "xor", b"q" * 33), (how, 1),
+                       ("enc", 1, "xor", b"q"), ("exit", 0), ("enc", 0, "xor", b"q")])
     fixed_draws = [bytes([200 + i]) * 32 for i in range(8)]
     for init in INITIALS:
         for n in range(1, maxlen + 1):
             for seq in itertools.product(alphabet, repeat=n):
                 cases.append({"file": init[0], "writable": init[1], "rng": fixed_draws[:n + 1],
-                              "ops": [("new",), ("new",)] + list(seq), "kind": "matrix"})
+                              "ops": [("new",), ("new",)] + list(seq), "kind": "matrix", "tilde": len(cases) % 3 == 0})
+    for init in INITIALS:
+        for seq in nested:
+            for tilde in (False, True):
+                cases.append({"file": init[0], "writable": init[1], "rng": fixed_draws[:6], "ops": list(seq), "kind": "nested", "tilde": tilde})
     # sessions separated by an external change of the file, same and different objects (every initial state)
     swaps = [KEY_B, KEY_A, b"12345", None, bytes(range(2, 18)), bytes(range(2, 26))]
     for init in INITIALS:
@@ -51,7 +64,7 @@ def generate(rng, tier):
                     ops = [("new",), ("new",), ("enter", 0), (cipher, 0, "xor", b"\x00" * 40), ("exitx" if second else "exit", 0), ("ext", swap, True),
                            ("enter", second), (cipher, second, "xor", b"\x00" * 40), ("enter", second), (cipher, second, "xor", b"abc"),
                            ("exit", second), ("exit", second), (cipher, second, "xor", b"abc")]
-                    cases.append({"file": init[0], "writable": init[1], "rng": fixed_draws[:4], "ops": ops, "kind": "swap"})
+                    cases.append({"file": init[0], "writable": init[1], "rng": fixed_draws[:4], "ops": ops, "kind": "swap", "tilde": len(cases) % 2 == 0})
     nrand = 1200 if tier == "quick" else 20000
     for _ in range(nrand):
         init = rng.choice(INITIALS)
@@ -70,7 +83,7 @@ def generate(rng, tier):
             if r < 0.38:
                 ops.append(("enter", i))
             elif r < 0.62:
-                ops.append(("exit" if rng.random() < 0.7 else "exitx", i))
+                ops.append((rng.choice(["exit", "exit", "exit", "exitx", "exite"]), i))
             elif r < 0.85:
                 m = rng.choice(METHODS)
                 data = bytes(rng.getrandbits(8) for _ in range(rng.choice([0, 1, 5, 32, 33, 70])))
@@ -80,11 +93,11 @@ def generate(rng, tier):
                 data = bytes(rng.getrandbits(8) for _ in range(rng.choice([0, 1, 31, 32, 48])))
                 ops.append(("dec", i, m, data))
             else:
-                c = rng.choice([None, None, KEY_A, KEY_B, b"", b"short", bytes(64), bytes(range(16)), bytes(range(24)), bytes(range(48))])
+                c = rng.choice([None, None, KEY_A, KEY_B, b"", b"short", bytes(64), bytes(range(16)), bytes(range(24)), bytes(range(48)), bytes(32), b" " * 32])
                 w = True if c is not None else rng.random() < 0.7
                 ops.append(("ext", c, w))
         cases.append({"file": init[0], "writable": init[1], "rng": draws(rng, 1 + sum(1 for o in ops if o[0] == "enter")), "ops": ops,
-                      "kind": "random"})
+                      "kind": "random", "tilde": rng.random() < 0.3})
     return cases
 
 
@@ -94,7 +107,7 @@ def gcase(c):
             return "KNew"
         if op[0] == "enter":
             return "(KEnter %d%%nat)" % op[1]
-        if op[0] in ("exit", "exitx"):
+        if op[0] in ("exit", "exitx", "exite"):
             return "(KExit %d%%nat)" % op[1]          # leaving the context because of an exception is the same step
         if op[0] == "enc":
             return "(KEncrypt %d%%nat %s %s)" % (op[1], GM[op[2]], g_bytes(op[3]))
@@ -141,6 +154,12 @@ def impl(c):
                 fp.write(content)
 
     set_file(c["file"], c["writable"])
+    # the key file named with a leading ~ (HOME points into the scratch directory): expanded the same way wherever it is used
+    name = path
+    old_home = _os.environ.get("HOME")
+    if c.get("tilde"):
+        _os.environ["HOME"] = d
+        name = "~/sub/key"
     stream = list(c["rng"])
     real_urandom = _os.urandom
 
@@ -159,7 +178,7 @@ def impl(c):
             out = "ok"
             try:
                 if op[0] == "new":
-                    objs.append(KeyFile(path))
+                    objs.append(KeyFile(name))
                 elif op[0] == "ext":
                     set_file(op[1], op[2])
                 elif op[1] >= len(objs):
@@ -171,6 +190,10 @@ def impl(c):
                 elif op[0] == "exitx":
                     err = ValueError("raised inside the with-block")
                     objs[op[1]].__exit__(ValueError, err, None)
+                elif op[0] == "exite":
+                    from cincoconfig.encryption import EncryptionError
+                    err = EncryptionError("an encryption error the caller handles")
+                    objs[op[1]].__exit__(EncryptionError, err, None)
                 elif op[0] == "enc":
                     sv = objs[op[1]].encrypt(op[3], method=op[2])
                     out = ("xor", bytes(sv.ciphertext)) if sv.method == "xor" else sv.method
@@ -190,6 +213,11 @@ def impl(c):
             trace.append((out, world))
     finally:
         _os.urandom = real_urandom
+        if c.get("tilde"):
+            if old_home is None:
+                _os.environ.pop("HOME", None)
+            else:
+                _os.environ["HOME"] = old_home
         shutil.rmtree(d, ignore_errors=True)
     return trace
 
@@ -252,7 +280,7 @@ def oracle(c, obs):
             else:
                 if out == "ok":
                     depth[i] += 1
-        elif op[0] in ("exit", "exitx"):
+        elif op[0] in ("exit", "exitx", "exite"):
             i = op[1]
             if depth[i] <= 0:
                 tainted = True
@@ -267,6 +295,9 @@ def oracle(c, obs):
                     bad.append("step %d: cipher call succeeded outside an open key context" % n)
                 if depth[i] > 0 and isinstance(out, tuple) and out[0] == "xor" and skey[i] is not None and out[1] != _xor(skey[i], op[3]):
                     bad.append("step %d: cipher result was not computed with the key of the file this session opened" % n)
+                if depth[i] > 0 and skey[i] is not None and is_err and (op[2] == "xor" or (op[0] == "enc" and op[2] in ("aes", "best"))):
+                    bad.append("step %d: %s with method %s failed (%r) inside an open key context with a valid key (nested contexts share one key)"
+                               % (n, op[0], op[2], out))
                 if depth[i] > 0 and skey[i] is None and not is_err:
                     bad.append("step %d: cipher call succeeded with a malformed key file" % n)
         if not tainted:
